@@ -384,3 +384,281 @@ Proof.
 Qed.
 
 End Cycle.
+
+(* ================================================================ validation as a whole *)
+Theorem validate_iff ord g strict : ord_ok ord -> wf g ->
+  exists v, validate ord g (cyc_fuel g) strict = Some v /\
+    (v <> VOk <-> has_cycle g \/ dangling g \/ (strict = true /\ disabled_dep g)).
+Proof.
+  intros Hord Hwf. destruct (is_cyclic_term ord g Hord) as [b Hb]. unfold validate. rewrite Hb.
+  destruct (has_undefined g) eqn:Eu.
+  - apply has_undefined_iff in Eu.
+    destruct b; eexists; (split; [reflexivity|]); (split; [intros _; auto|discriminate]).
+  - assert (Hnd : ~ dangling g). { rewrite <- has_undefined_iff. congruence. }
+    pose proof (is_cyclic_closed ord g Hord Hwf (not_dangling_closed g Hnd) _ b Hb) as Hc.
+    destruct b.
+    + exists VCycle. split; auto. split; [intros _; left; now apply Hc|discriminate].
+    + assert (Hnc : ~ has_cycle g) by (intros X; apply Hc in X; discriminate).
+      destruct strict; cbn [andb].
+      * destruct (has_disabled_dep g) eqn:Ed.
+        -- exists VDisabledDep. split; auto. split; [|discriminate]. intros _. right; right.
+           split; auto. now apply has_disabled_dep_iff.
+        -- exists VOk. split; auto. split; [congruence|]. intros [X|[X|[_ X]]]; try contradiction.
+           apply has_disabled_dep_iff in X; auto. congruence.
+      * exists VOk. split; auto. split; [congruence|].
+        intros [X|[X|[X _]]]; try contradiction; discriminate.
+Qed.
+
+(* ================================================================ the post-order traversal *)
+Fixpoint ordered (seen : list N) (acc : list proc) : Prop :=
+  match acc with
+  | [] => True
+  | p :: r => (forall dn, In dn (deps p) -> In dn seen) /\ ordered (key p :: seen) r
+  end.
+
+Lemma ordered_snoc s a p : ordered s a -> (forall dn, In dn (deps p) -> In dn s \/ In dn (keys a)) ->
+  ordered s (a ++ [p]).
+Proof.
+  revert s. induction a as [|q r IH]; intros s H Hp; cbn.
+  - split; auto. intros dn Hd. destruct (Hp dn Hd) as [X|[]]; auto.
+  - destruct H as [H1 H2]. split; auto. apply IH; auto.
+    intros dn Hd. destruct (Hp dn Hd) as [X|[X|X]]; [left; now right|left; now left|now right].
+Qed.
+
+Lemma ordered_split s l1 p l2 : ordered s (l1 ++ p :: l2) ->
+  forall dn, In dn (deps p) -> In dn s \/ In dn (keys l1).
+Proof.
+  revert s. induction l1 as [|q r IH]; intros s H dn Hd; cbn in H.
+  - left. now apply H.
+  - destruct H as [_ H]. destruct (IH _ H dn Hd) as [[X|X]|X]; [right; now left|now left|right; now right].
+Qed.
+
+Lemma NoDup_snoc (l : list N) x : NoDup l -> ~ In x l -> NoDup (l ++ [x]).
+Proof.
+  induction l as [|a r IH]; intros H Hx; cbn.
+  - constructor; [intros []|constructor].
+  - inversion H; subst. constructor.
+    + intros Hi. apply in_app_or in Hi. destruct Hi as [Hi|[Hi|[]]]; auto. apply Hx. now left.
+    + apply IH; auto. intros Hi. apply Hx. now right.
+Qed.
+
+Lemma keys_app a b : keys (a ++ b) = keys a ++ keys b.
+Proof. apply map_app. Qed.
+
+Section Order.
+Context (ord : oracle) (g : graph) (Hord : ord_ok ord).
+Notation K := (keys g).
+Notation E := (edge g).
+
+Lemma get_procs_incl c names ps : get_procs ord g c names = Some ps -> incl ps g.
+Proof.
+  revert ps. induction names as [|n r IH]; cbn; intros ps H.
+  - inversion H. intros x [].
+  - destruct (resolve1 ord g c n) eqn:E1; [|discriminate].
+    destruct (get_procs ord g c r) eqn:E2; [|discriminate]. inversion H; subst.
+    apply incl_app; [eapply resolve1_incl; eauto|auto].
+Qed.
+
+(* ---- enough fuel, and everything handed to fn is a process of the project: any graph ---- *)
+Definition wp_term_P (f : nat) : Prop := forall c names d acc, cnt K d < f -> incl acc g ->
+  exists e st', wp ord g f c names (d, acc) = Some (e, st') /\ incl d (fst st') /\ incl (snd st') g.
+
+Lemma wp_loop_term f (IH : wp_term_P f) : forall ps d acc err, incl ps g -> cnt K d <= f -> incl acc g ->
+  exists e st', wp_loop ord (wp ord g f) ps (d, acc) err = Some (e, st') /\ incl d (fst st') /\ incl (snd st') g.
+Proof.
+  induction ps as [|p r IHl]; intros d acc err Hps Hc Ha.
+  - exists err, (d, acc). cbn. auto using incl_refl.
+  - cbn [wp_loop fst snd]. assert (Hr : incl r g) by (intros x Hx; apply Hps; now right).
+    assert (Hp : In p g) by (apply Hps; now left).
+    destruct (mem (key p) d) eqn:Em; [apply IHl; auto|]. apply mem_nIn in Em.
+    assert (Hlt : cnt K (key p :: d) < cnt K d) by (apply cnt_lt; auto; now apply in_map).
+    destruct (deps p) eqn:Ed.
+    + destruct (IHl (key p :: d) (acc ++ [p]) err) as [e [st' [H1 [H2 H3]]]]; auto; try lia.
+      { apply incl_app; auto. intros x [<-|[]]; auto. }
+      exists e, st'. repeat split; auto. intros x Hx. apply H2. now right.
+    + rewrite <- Ed.
+      destruct (IH (key p) (ord (SDeps (key p) (key p)) N (deps p)) (key p :: d) acc) as [e1 [[d1 a1] [H1 [H2 H3]]]]; auto; try lia.
+      rewrite H1. cbn [fst snd] in *.
+      assert (Hd1 : cnt K d1 <= f) by (pose proof (cnt_mono K _ _ H2); lia).
+      assert (Hdd : incl d d1) by (intros x Hx; apply H2; now right).
+      destruct e1.
+      * destruct (IHl d1 a1 true) as [e [st' [G1 [G2 G3]]]]; auto.
+        exists e, st'. repeat split; auto. eapply incl_tran; eauto.
+      * destruct (IHl d1 (a1 ++ [p]) err) as [e [st' [G1 [G2 G3]]]]; auto.
+        { apply incl_app; auto. intros x [<-|[]]; auto. }
+        exists e, st'. repeat split; auto. eapply incl_tran; eauto.
+Qed.
+
+Lemma wp_term : forall f, wp_term_P f.
+Proof.
+  induction f as [|f IHf]; intros c names d acc Hc Ha; [lia|].
+  cbn [wp]. destruct (get_procs ord g c names) as [ps|] eqn:Eg.
+  - apply wp_loop_term; auto; try lia. eapply get_procs_incl; eauto.
+  - exists true, (d, acc). cbn. auto using incl_refl.
+Qed.
+
+Lemma keys_length : length K = length g.
+Proof. apply map_length. Qed.
+
+Lemma post_order_term roots : exists e post, post_order ord g (wp_fuel g) roots = Some (e, post) /\ incl post g.
+Proof.
+  unfold post_order, wp_fuel. destruct roots as [|r0 rr].
+  - destruct (wp_loop_term _ (wp_term (length g)) (ord SRoots proc g) [] [] false) as [e [st' [H1 [H2 H3]]]].
+    + intros x Hx. now apply Hord in Hx.
+    + pose proof (cnt_le_length K []). rewrite keys_length in H. lia.
+    + intros x [].
+    + rewrite H1. exists e, (snd st'). cbn. auto.
+  - destruct (wp_term (S (length g)) 0%N (r0 :: rr) [] []) as [e [st' [H1 [H2 H3]]]].
+    + pose proof (cnt_le_length K []). rewrite keys_length in H. lia.
+    + intros x [].
+    + rewrite H1. exists e, (snd st'). cbn. auto.
+Qed.
+
+(* ---- the order itself: closed, acyclic graphs ---- *)
+Context (Hwf : wf g) (Hcl : closed g) (Hac : ~ has_cycle g).
+
+Section WithR.
+Context (R : N -> Prop) (HR : forall a b, R a -> E a b -> R b).
+
+Definition W (d : list N) (acc : list proc) : Prop :=
+  incl (keys acc) d /\ NoDup (keys acc) /\ ordered [] acc /\ incl acc g /\ (forall p, In p acc -> R (key p)).
+Definition grey (d : list N) (acc : list proc) (x : N) : Prop := In x d /\ ~ In x (keys acc).
+
+Definition wp_post (d : list N) (acc : list proc) (st' : wstate) : Prop :=
+  W (fst st') (snd st') /\ incl d (fst st') /\ (exists new, snd st' = acc ++ new) /\
+  (forall x, grey (fst st') (snd st') x <-> grey d acc x).
+
+Definition wp_spec_P (f : nat) : Prop := forall c names d acc e st',
+  wp ord g f c names (d, acc) = Some (e, st') ->
+  incl names K -> W d acc -> (forall dn, In dn names -> R dn) ->
+  (forall x, grey d acc x -> forall dn, In dn names -> tpath E x dn) ->
+  e = false /\ wp_post d acc st' /\ (forall dn, In dn names -> In dn (keys (snd st'))).
+
+Lemma W_emit d acc p : W d acc -> In p g -> R (key p) -> In (key p) d -> ~ In (key p) (keys acc) ->
+  (forall dn, In dn (deps p) -> In dn (keys acc)) -> W d (acc ++ [p]).
+Proof.
+  intros [W1 [W2 [W3 [W4 W5]]]] Hp HRp Hd Hn Hdeps. unfold W. rewrite keys_app. cbn [keys map].
+  split; [|split; [|split; [|split]]].
+  - apply incl_app; auto. intros x [<-|[]]; auto.
+  - now apply NoDup_snoc.
+  - apply ordered_snoc; auto.
+  - apply incl_app; auto. intros x [<-|[]]; auto.
+  - intros q Hq. apply in_app_or in Hq. destruct Hq as [Hq|[<-|[]]]; auto.
+Qed.
+
+Lemma W_weaken d d' acc : W d acc -> incl d d' -> W d' acc.
+Proof.
+  intros [W1 [W2 [W3 [W4 W5]]]] Hi. unfold W. split; [eapply incl_tran; eauto|auto].
+Qed.
+
+Lemma wp_loop_spec f (IH : wp_spec_P f) : forall ps d acc err e st',
+  wp_loop ord (wp ord g f) ps (d, acc) err = Some (e, st') ->
+  incl ps g -> W d acc -> (forall p, In p ps -> R (key p)) ->
+  (forall x, grey d acc x -> forall p, In p ps -> tpath E x (key p)) ->
+  e = err /\ wp_post d acc st' /\ (forall p, In p ps -> In (key p) (keys (snd st'))).
+Proof.
+  induction ps as [|p r IHl]; intros d acc err e st' H Hps HW HRps Hg.
+  - cbn in H. inversion H; subst. split; auto. split; [|intros p []].
+    unfold wp_post. cbn. split; auto. split; [apply incl_refl|]. split; [exists []; now rewrite app_nil_r|tauto].
+  - cbn [wp_loop fst snd] in H.
+    assert (Hr : incl r g) by (intros x Hx; apply Hps; now right).
+    assert (Hp : In p g) by (apply Hps; now left).
+    assert (HRr : forall q, In q r -> R (key q)) by (intros q Hq; apply HRps; now right).
+    assert (HRp : R (key p)) by (apply HRps; now left).
+    pose proof HW as HW0. destruct HW as [W1 [W2 [W3 [W4 W5]]]].
+    assert (Hdd : incl d (key p :: d)) by (intros x Hx; now right).
+    destruct (mem (key p) d) eqn:Em.
+    + (* already done: it must already have been emitted, else a cycle *)
+      apply mem_In in Em.
+      destruct (IHl d acc err e st' H) as [He [Hpost Hall]]; auto.
+      { intros x Hx q Hq. apply Hg; auto. now right. }
+      split; auto. split; auto. intros q [<-|Hq]; auto.
+      destruct Hpost as [_ [_ [[new Hn] _]]]. rewrite Hn, keys_app. apply in_or_app. left.
+      destruct (mem (key p) (keys acc)) eqn:Ea; [now apply mem_In|]. apply mem_nIn in Ea.
+      exfalso. apply Hac. exists (key p). apply Hg; [split; auto|now left].
+    + apply mem_nIn in Em.
+      assert (Hna : ~ In (key p) (keys acc)) by (intros Hx; apply Em; now apply W1).
+      destruct (deps p) eqn:Ed.
+      * assert (HW1 : W (key p :: d) (acc ++ [p])).
+        { apply W_emit; [eapply W_weaken; eauto|exact Hp|exact HRp|now left|exact Hna|].
+          rewrite Ed. intros dn []. }
+        assert (Hgeq : forall x, grey (key p :: d) (acc ++ [p]) x <-> grey d acc x).
+        { intros x. unfold grey. rewrite keys_app. cbn [keys map]. split.
+          - intros [[<-|Hx] Hn]; [exfalso; apply Hn; apply in_or_app; right; now left|].
+            split; auto. intros Hy. apply Hn. apply in_or_app. now left.
+          - intros [Hx Hn]. split; [now right|]. intros Hy. apply in_app_or in Hy.
+            destruct Hy as [Hy|[<-|[]]]; auto. }
+        destruct (IHl _ _ err e st' H) as [He [Hpost Hall]]; auto.
+        { intros x Hx q Hq. apply Hg; [now apply Hgeq|now right]. }
+        destruct Hpost as [P1 [P2 [[new P3] P4]]].
+        split; auto. split.
+        { split; auto. split; [intros x Hx; apply P2; now right|].
+          split; [exists ([p] ++ new); now rewrite P3, app_assoc|].
+          intros x. rewrite P4. apply Hgeq. }
+        intros q [<-|Hq]; auto. rewrite P3, !keys_app. apply in_or_app. left. apply in_or_app. right. now left.
+      * rewrite <- Ed in H.
+        set (names := ord (SDeps (key p) (key p)) N (deps p)) in *.
+        destruct (wp ord g f (key p) names (key p :: d, acc)) as [[e1 [d1 a1]]|] eqn:Ew; [|discriminate].
+        assert (Hnames : forall dn, In dn names <-> In dn (deps p)) by (intros dn; apply Hord).
+        assert (Hedge : forall dn, In dn names -> E (key p) dn).
+        { intros dn Hdn. exists p. repeat split; auto. now apply Hnames. }
+        destruct (IH (key p) names (key p :: d) acc e1 (d1, a1) Ew) as [He1 [Hpost1 Hall1]].
+        { intros dn Hdn. apply Hnames in Hdn. eapply Hcl; eauto. }
+        { eapply W_weaken; eauto. }
+        { intros dn Hdn. eapply HR; [exact HRp|apply Hedge; auto]. }
+        { intros x [[<-|Hx] Hn] dn Hdn.
+          - exists dn. split; [now apply Hedge|constructor].
+          - eapply tpath_snoc; [|apply Hedge; auto]. apply Hg; [split; auto|now left]. }
+        subst e1. destruct Hpost1 as [Q1 [Q2 [[new1 Q3] Q4]]]. cbn [fst snd] in *.
+        assert (Hpg : grey d1 a1 (key p)). { apply Q4. split; [now left|auto]. }
+        assert (HW1 : W d1 (a1 ++ [p])).
+        { apply W_emit; [exact Q1|exact Hp|exact HRp|apply Q2; now left|apply Hpg|].
+          intros dn Hdn. apply Hall1. now apply Hnames. }
+        assert (Hgeq : forall x, grey d1 (a1 ++ [p]) x <-> grey d acc x).
+        { intros x. unfold grey. rewrite keys_app. cbn [keys map]. split.
+          - intros [Hx Hn].
+            assert (Hx1 : grey d1 a1 x) by (split; auto; intros Hy; apply Hn; apply in_or_app; now left).
+            apply Q4 in Hx1. destruct Hx1 as [[<-|Hx1] Hn1]; [exfalso; apply Hn; apply in_or_app; right; now left|].
+            split; auto.
+          - intros [Hx Hn]. assert (Hx1 : grey d1 a1 x) by (apply Q4; split; [now right|auto]).
+            destruct Hx1 as [X1 X2]. split; auto. intros Hy. apply in_app_or in Hy.
+            destruct Hy as [Hy|[<-|[]]]; auto. }
+        destruct (IHl _ _ err e st' H) as [He [Hpost Hall]]; auto.
+        { intros x Hx q Hq. apply Hg; [now apply Hgeq|now right]. }
+        destruct Hpost as [P1 [P2 [[new P3] P4]]].
+        split; auto. split.
+        { split; auto. split; [intros x Hx; apply P2; apply Q2; now right|].
+          split; [exists (new1 ++ [p] ++ new); now rewrite P3, Q3, <- !app_assoc|].
+          intros x. rewrite P4. apply Hgeq. }
+        intros q [<-|Hq]; auto. rewrite P3, !keys_app. apply in_or_app. left. apply in_or_app. right. now left.
+Qed.
+
+Lemma get_procs_keys c names : incl names K ->
+  exists ps, get_procs ord g c names = Some ps /\ incl ps g /\
+             (forall q, In q ps -> In (key q) names) /\ (forall dn, In dn names -> exists q, In q ps /\ key q = dn).
+Proof.
+  induction names as [|n r IH]; intros Hn.
+  - exists []. cbn. split; [reflexivity|]. split; [intros x []|]. split; intros x [].
+  - destruct IH as [ps [H1 [H2 [H3 H4]]]]. { intros x Hx. apply Hn. now right. }
+    destruct (find_key_some g n) as [p Hp]. { apply Hn. now left. }
+    destruct (find_key_In _ _ _ Hp) as [Hpg Hpk].
+    exists ([p] ++ ps). cbn [get_procs]. unfold resolve1. rewrite Hp, H1. split; auto.
+    split. { apply incl_app; auto. intros x [<-|[]]; auto. }
+    split.
+    + intros q [<-|Hq]; [left; auto|right; auto].
+    + intros dn [<-|Hd]; [exists p; split; auto; now left|].
+      destruct (H4 dn Hd) as [q [Hq1 Hq2]]. exists q. split; auto. now right.
+Qed.
+
+Lemma wp_spec : forall f, wp_spec_P f.
+Proof.
+  induction f as [|f IHf]; intros c names d acc e st' H Hn HW HRn Hg; [discriminate|].
+  cbn [wp] in H. destruct (get_procs_keys c names Hn) as [ps [G1 [G2 [G3 G4]]]]. rewrite G1 in H.
+  destruct (wp_loop_spec f IHf ps d acc false e st' H G2 HW) as [He [Hpost Hall]].
+  { intros q Hq. apply HRn. now apply G3. }
+  { intros x Hx q Hq. apply Hg; auto. }
+  split; auto. split; auto. intros dn Hdn. destruct (G4 dn Hdn) as [q [Hq <-]]. auto.
+Qed.
+
+End WithR.
+End Order.
